@@ -63,7 +63,21 @@ pub fn gen(rng: &mut Rng) -> (Vec<u8>, &'static str) {
       // md5sum of every length and non-hex
       let n = rng.below(41) as usize;
       let s: String = (0..n).map(|_| *rng.pick(&['0', '1', 'a', 'f', 'A', 'F', 'g', 'z', ' ', '-'])).collect();
-      let s = if rng.chance(1, 2) { "0123456789abcdef0123456789abcdef0123456789"[..n].to_string() } else { s };
+      let s = match rng.below(4) {
+        0 | 1 => "0123456789abcdef0123456789abcdef0123456789"[..n].to_string(),
+        2 => {
+          // exactly 32 bytes of valid UTF-8 with a multi-byte character at a random byte offset
+          let ch = *rng.pick(&["é", "日", "🎉", "\u{7f}", "+", " "]);
+          let at = rng.below(32 - ch.len() as u64 + 1) as usize;
+          let mut t = "0".repeat(at);
+          t.push_str(ch);
+          while t.len() < 32 {
+            t.push('a');
+          }
+          t
+        }
+        _ => s,
+      };
       if rng.chance(1, 2) {
         (format!("d4:infod6:lengthi1e6:md5sum{}:{s}4:name1:a12:piece lengthi16384e6:pieces0:ee", s.len()).into_bytes(), "md5sum-length")
       } else {
@@ -317,7 +331,30 @@ fn arg_cases(rng: &mut Rng, n: u64) -> Vec<(Vec<String>, &'static str)> {
       a.extend(extra);
       a
     };
-    match rng.below(9) {
+    // structured arguments: the documented grammar with extreme components
+    let big = ["0", "1", "15", "16", "17", "1023", "1024", "16383", "16384", "16385", "4294967295", "4294967296", "9007199254740993", "18014398509481984", "18446744073709551615", "18446744073709551616", "99999999999999999999999", "0.5", "1.5", "15.999999999999999", "16.000000000000001", "1e3", ".5", "5.", "-1", "+1", "1_000", "0x10", "١٢"];
+    let suffixes = ["", "b", "kib", "mib", "gib", "tib", "pib", "eib", "KiB", "EIB", "k", "m", "g", "t", "p", "e", "kb", "zib", "ib", " kib", "\u{212a}ib"];
+    let kind = rng.below(9);
+    let s = if rng.chance(3, 5) {
+      match kind {
+        0 if rng.chance(1, 3) => {
+          // the product lands next to 2^64 (or 2^63, 2^53)
+          let k = rng.range(1, 6) as u32;
+          let top = *rng.pick(&[64u32, 63, 53]);
+          let n = (1u128 << (top - 10 * k.min(top / 10))) as i128 + rng.range(0, 2) as i128 - 1;
+          format!("{n}{}", ["kib", "mib", "gib", "tib", "pib", "eib"][(k - 1) as usize])
+        }
+        0 => format!("{}{}", rng.pick(&big), rng.pick(&suffixes)),
+        1 | 2 => format!("{}:{}", rng.pick(&["a", "1.2.3.4", "[::1]", "::1", "", "a:b", "é", "xn--a", "[", "]", "[::ffff:1.2.3.4]", "0x7f.1", "1.2.3.4.5", "4294967295"]), rng.pick(&["0", "1", "65535", "65536", "99999999999999999999", "-1", "", "+5", "08", "٣"])),
+        3 => format!("{}{}{}", rng.pick(&["path", "size", "PATH", "", "p", "path ", "siz"]), rng.pick(&[":", "", "::", ";"]), rng.pick(&["ascending", "descending", "asc", "", "ASCENDING", "é"])),
+        4 => format!("{}{}", rng.pick(&["*", "!", "**", "[", "[a-", "{a,b", "\\", "a/**/b", "!!", "[!]", "{}", "***"]), s),
+        5 | 6 | 7 => format!("{}{}{}", rng.pick(&["http", "udp", "", "HTTP", "h t", "1http", "file", "magnet"]), rng.pick(&["://", ":", ":/", "", ":///"]), rng.pick(&["a", "a:99999", "[::1", "a b", "", "%", "é.example/ü?#", "user:pw@h:1/p", "[::1]:80"])),
+        _ => s,
+      }
+    } else {
+      s
+    };
+    match kind {
       0 => v.push((create(vec!["--piece-length".into(), s]), "arg:byte-size")),
       1 => v.push((create(vec!["--node".into(), s]), "arg:host-port")),
       2 => v.push((vec!["torrent".into(), "link".into(), "--input".into(), "t.torrent".into(), "--peer".into(), s], "arg:host-port")),
